@@ -25,6 +25,8 @@ pub enum KSel {
     Any(usize),
     /// a fraction of the remaining count (lands anywhere inside the remaining range)
     Frac(u16),
+    /// 2^e + s (e in 0..64): arguments just above a power of two, e.g. 2^32 + 5
+    Pow2Plus(u8, u8),
 }
 
 #[derive(Clone, Copy, Debug, Hash, PartialEq, Eq, Serialize, Deserialize)]
@@ -68,6 +70,7 @@ fn resolve(k: KSel, rem: usize) -> usize {
         KSel::MaxMinusRem => usize::MAX - rem,
         KSel::Any(x) => x,
         KSel::Frac(f) => (f as usize * (rem + 1)) >> 16,
+        KSel::Pow2Plus(e, s) => (1usize << (e % 64)).wrapping_add(s as usize),
     }
 }
 
@@ -164,6 +167,7 @@ fn arb_ksel() -> impl Strategy<Value = KSel> {
         1 => Just(KSel::MaxMinusRem),
         1 => any::<usize>().prop_map(KSel::Any),
         4 => any::<u16>().prop_map(KSel::Frac),
+        2 => (0u8..64, 0u8..12).prop_map(|(e, s)| KSel::Pow2Plus(e, s)),
     ]
 }
 
@@ -202,7 +206,7 @@ impl Property for C17 {
     fn exhaustive_subspaces(&self, _tier: Tier) -> Vec<String> {
         vec!["all call sequences of length <=4 over {next, next_back, nth(0), nth(1), nth_back(1), nth(usize::MAX), nth_back(usize::MAX-rem)} x every n<=5 x 4 iterator sources x 4 terminals on Bvf<u8,1>, Bvd, Bv".into()]
     }
-    fn enumerate(&self, _tier: Tier, sh: &mut Shard, f: &mut dyn FnMut(C17Case) -> bool) {
+    fn enumerate(&self, tier: Tier, sh: &mut Shard, f: &mut dyn FnMut(C17Case) -> bool) {
         // long vectors: jumps to arbitrary interior positions followed by single steps
         for t in [TID_D, TID_A, 18u8, 10u8] {
             let c = fixed_cap(t).unwrap_or(usize::MAX);
@@ -211,7 +215,13 @@ impl Property for C17 {
                     continue;
                 }
                 let n = n.min(c);
-                let a = crate::gen::long_values(n)[1].clone();
+                let mut sparse = Bits::zeros(n);
+                for i in [70usize, 4100, 4250, n - 3] {
+                    if i < n {
+                        sparse.0[i] = true;
+                    }
+                }
+                for a in [crate::gen::long_values(n)[1].clone(), crate::gen::long_values(n)[3].clone(), crate::gen::long_values(n)[5].clone(), sparse] {
                 for f1 in [1000u16, 16384, 32768, 40000, 65000] {
                     for f2 in [1000u16, 30000, 65000] {
                         for src in 0..4usize {
@@ -223,6 +233,35 @@ impl Property for C17 {
                         }
                     }
                 }
+                }
+            }
+        }
+        // every power-of-two-plus-small argument on a partially consumed iterator
+        for e in 0u8..64 {
+            if !sh.mine() {
+                continue;
+            }
+            for s in [0u8, 1, 5] {
+                for back in [false, true] {
+                    let k = KSel::Pow2Plus(e, s);
+                    let calls = vec![Call::Next, Call::NextBack, if back { Call::NthBack(k) } else { Call::Nth(k) }, Call::Next, Call::SizeHint];
+                    for (t, n) in [(1u8, 16usize), (TID_D, 70), (TID_A, 200)] {
+                        for rev in [false, true] {
+                            if !f(C17Case { a: Operand::canon(t, dense_value(n)), into_iter: back, rev, calls: calls.clone(), term: Terminal::Collect }) {
+                                return;
+                            }
+                        }
+                    }
+                }
+            }
+        }
+        for (t, n) in dense_lengths(tier) {
+            if !sh.mine() {
+                continue;
+            }
+            let calls = vec![Call::Nth(KSel::Frac(20000)), Call::Next, Call::NthBack(KSel::Frac(20000)), Call::NextBack, Call::Nth(KSel::Small(63)), Call::Next];
+            if !f(C17Case { a: Operand::canon(t, dense_value(n)), into_iter: n % 2 == 0, rev: n % 4 < 2, calls, term: TERMS[n % 4] }) {
+                return;
             }
         }
         let alpha = [Call::Next, Call::NextBack, Call::Nth(KSel::Small(0)), Call::Nth(KSel::Small(1)), Call::NthBack(KSel::Small(1)), Call::Nth(KSel::Max), Call::NthBack(KSel::MaxMinusRem)];
